@@ -134,7 +134,17 @@ func (c *Real64) AllocForOne(a ConstScalar) {
   c.Alloc(a.GetN(), a.GetOrder())
 }
 func (c *Real64) AllocForTwo(a, b ConstScalar) {
-  c.Alloc(iMax(a.GetN(), b.GetN()), iMax(a.GetOrder(), b.GetOrder()))
+  n     := iMax(a.GetN(), b.GetN())
+  order := iMax(a.GetOrder(), b.GetOrder())
+  if c.N == n && c.Order == 1 && order == 2 {
+    // c may be one of the operands: keep its gradient when the
+    // result needs a higher order
+    derivative := c.Derivative
+    c.Alloc(n, order)
+    copy(c.Derivative, derivative)
+  } else {
+    c.Alloc(n, order)
+  }
 }
 /* read access
  * -------------------------------------------------------------------------- */
